@@ -16,7 +16,9 @@
                equal and hash equally, however they were computed"
    Record kinds (field f): pair, rel, single, elem, build, tree, hist, bits, proxy,
    histp (histories that assign one operator[] proxy to another) - inside the
-   statement of C10 - and proxyx, out - OBSERVED ONLY, see InScope at the end.
+   statement of C10 - and proxyx, out, buildx - OBSERVED ONLY, see InScope at the end.
+   Subsets chosen by the generator are logged as element lists (ms, s), never as
+   masks: enums have up to 65 enumerators here.
    Operator names: set (set(e,b)), idx (field[e] = b), ore (field | e), orae
    (field |= e), or/and/xor, ora/anda/xora (assigning forms), not, null, init,
    ilist, copy, assign, array (construction from the word array), swap.
@@ -122,7 +124,10 @@ ElemReasons(r) ==
    names operator[] ("set/get/operator[] ... all agree with ... set"), and
    object_decl.hpp calls the proxy "a reference to a mask value (a reference to a
    boolean, basically)": field[i] = field[j] assigns the BIT, chains work right to
-   left, a named proxy keeps referring to its own enumerator *)
+   left, a named proxy keeps referring to its own enumerator.  cross: c[i] = d[j] between
+   temporaries of two objects (move assignment), crossn: between named proxies of two
+   objects (copy assignment), crossk: from a proxy of a const bitfield (conversion to
+   bool, then operator=(bool)) *)
 ProxyReasons(r) ==
   LET a == S(r.a)
       b == S(r.b)
@@ -137,6 +142,9 @@ ProxyReasons(r) ==
           \cup VReasons("proxy_move_assign", "mv", r.mv, B(n)!SetBit(a, i, B(n)!Get(a, j)))
           \cup VReasons("proxy_copy_assign", "cross", r.cross, B(n)!SetBit(a, i, B(n)!Get(b, j)))
           \cup If(S(r.crossb) # b, "operand/right-operand-modified")
+          \cup VReasons("proxy_copy_assign", "crossn", r.crossn, B(n)!SetBit(a, i, B(n)!Get(b, j)))
+          \cup If(S(r.crossnb) # b, "operand/right-operand-modified")
+          \cup VReasons("idx", "crossk", r.crossk, B(n)!SetBit(a, i, B(n)!Get(b, j)))
           \cup If(S(r.aa) # a, "operand/left-operand-of-value-operator-modified")
 
 (* details of the proxy type (OBSERVED ONLY): a copy of a proxy refers to the same bit,
@@ -160,9 +168,12 @@ ProxyXReasons(r) ==
           \cup If(r.rid[4] # 1, "orae/returns-another-object@rid")
           \cup If(S(r.aa) # a, "operand/left-operand-of-value-operator-modified")
 
-(* operator<<, underlying_value, construction from the storage word *)
+(* operator<<, underlying_value, construction from the storage word.  Words are logged
+   as four 16-bit limbs (TLC integers are 32-bit; single-word bitfields hold up to 64
+   enumerators): limb k (1..4) carries the enumerators 16(k-1) .. 16k-1 *)
 NameOf(e) == IF e < 10 THEN <<118, 48 + e>> ELSE <<118, 48 + (e \div 10), 48 + (e % 10)>>
-Limbs16(v) == <<v % 65536, v \div 65536, 0, 0>>
+LimbsOf(n, a) == [k \in 1..4 |-> B(n)!Underlying({e - 16 * (k - 1) : e \in {x \in a : x \div 16 = k - 1}})]
+FromLimbs(n, v) == {e \in 0..(n - 1) : (v[(e \div 16) + 1] \div (2 ^ (e % 16))) % 2 = 1}
 OutReasons(r) ==
   LET a == S(r.a)
       n == r.n
@@ -171,16 +182,17 @@ OutReasons(r) ==
      \cup If(r.ws # txt, "output/text@ws")
      \cup If(r.good # 1, "output/stream-state@good")
      \cup (IF r.uv = <<>> THEN {}
-           ELSE If(r.uv # Limbs16(B(n)!Underlying(a)), "underlying_value/result@uv")
+           ELSE If(r.uv # LimbsOf(n, a), "underlying_value/result@uv")
                 \cup VReasons("array", "uvb", r.uvb, a)
-                \cup (IF r.arg[3] # 0 \/ r.arg[4] # 0 \/ r.arg[2] > 1 THEN {"HARNESS-PRECONDITION"}
-                      ELSE VReasons("array", "from", r.from, B(n)!FromWord(r.arg[1] + 65536 * r.arg[2]))))
+                \cup (IF Len(r.arg) # 4 \/ LimbsOf(n, FromLimbs(n, r.arg)) # r.arg THEN {"HARNESS-PRECONDITION"}
+                      ELSE VReasons("array", "from", r.from, FromLimbs(n, r.arg))))
 
 (* every single-enumerator operation of one subset (built with field[e] = true) *)
 BitsReasons(r) ==
   LET n == r.n
-      a == B(n)!FromWord(r.m)
-  IN If(S(r.a) # a, "idx/contents@a")
+      a == S(r.ms)
+  IN If(~InRange(n, r.ms), "HARNESS-PRECONDITION")
+     \cup If(S(r.a) # a, "idx/contents@a")
      \cup If(S(r.ai) # S(r.a), "index/differs-from-get")
      \cup If(\E e \in 0..(n - 1) : S(r.s1[e + 1]) # B(n)!SetBit(a, e, TRUE), "set/contents@s1")
      \cup If(\E e \in 0..(n - 1) : S(r.s0[e + 1]) # B(n)!SetBit(a, e, FALSE), "idx/contents@s0")
@@ -227,7 +239,7 @@ BFReasons(r) ==
     [] r.f = "rel" -> RelRecReasons(r)
     [] r.f = "single" -> SingleReasons(r)
     [] r.f = "elem" -> ElemReasons(r)
-    [] r.f = "build" -> BuildReasons(r)
+    [] r.f \in {"build", "buildx"} -> BuildReasons(r)
     [] r.f = "tree" -> TreeReasons(r)
     [] r.f \in {"hist", "histp"} -> HistReasons(r)
     [] r.f = "proxy" -> ProxyReasons(r)
@@ -242,9 +254,9 @@ BFReasons(r) ==
      pair, rel, tree, hist  "the operators |, &, ^, ~ and their assigning forms,
                             is_subset_eq, ==, != and hash all agree with union, ..."
      single, elem, bits     "set/get/operator[]", "~ ... complement relative to the enum"
-     build                  "construction from an initializer list and init"; copies and the
-                            array constructor only carry values ("two bitfields containing the
-                            same enumerators are equal and hash equally, however they were computed")
+     build                  "construction from an initializer list and init"; copies and copy
+                            assignment only carry values ("two bitfields containing the same
+                            enumerators are equal and hash equally, however they were computed")
      proxy, histp           "set/get/operator[] ... all agree with ..." - assignment THROUGH
                             operator[] from another operator[] proxy (field[a] = field[b],
                             field[a] = field[b] = true); object_decl.hpp: the proxy is "a reference to
@@ -252,6 +264,9 @@ BFReasons(r) ==
                             coordinator; defect repaired in /repo by 506c999.
    Not covered by the statement (observed only): proxyx (a copy of a proxy, const proxy
    conversion, identity of the references returned by operator=(bool) and by the
-   assigning operators), out (operator<<, underlying_value, construction from a word). *)
+   assigning operators), out (operator<<, underlying_value, construction from a word),
+   buildx (construction from array() of another bitfield, initialisation from an
+   fcppt::enum_::array<E,bool>).  The observed-only kinds are recorded by separate
+   executables (harness/c10_bitfield_x*.cpp). *)
 InScope == {"pair", "rel", "single", "elem", "build", "tree", "hist", "bits", "proxy", "histp"}
 =============================================================================
